@@ -95,7 +95,26 @@ class RunObs:
         return {'kind': self.kind, 'rc': self.rc, 'stdout': C.clip(self.out, 400), 'stderr': C.clip(self.err, 400)}
 
 
-def run_interp(binary, path, level, stdin_bytes, cpu=10, wall=120):
+def common_prefix(a, b):
+    n = min(len(a), len(b))
+    i = 0
+    while i < n and a[i] == b[i]:
+        i += 1
+    return a[:i]
+
+
+def split_diag(err, ref_err):
+    """stderr of a run that ended with a tool diagnostic -> (program's own text, diagnostic text).
+    The wording of diagnostics is not fixed by any property: the program part is what coincides with the
+    stderr text the model predicts, the rest is the diagnostic."""
+    if '[error]' in err:
+        i = err.index('[error]')
+        return err[:i], err[i:]
+    p = common_prefix(err, ref_err)
+    return p, err[len(p):]
+
+
+def run_interp(binary, path, level, stdin_bytes, cpu=10, wall=120, hint=None):
     """-> RunObs with kind in: end, exit1, encerr, crash, cpu, wall, noheader, other.
     ('end' covers normal end and a requested exit 0: indistinguishable at the process boundary.)"""
     p = C.run_proc([binary, 'run', '-O%d' % level, '--color', 'never', path], stdin_bytes, cpu=cpu, wall=wall)
@@ -108,8 +127,11 @@ def run_interp(binary, path, level, stdin_bytes, cpu=10, wall=120):
         kind = 'cpu'
     elif p.crashed:
         kind = 'crash'
-    elif p.rc == 1 and ENC_MARK in err:
-        kind = 'encerr'     # at -O2 the error may surface while optimising, before the header is printed
+    elif p.rc == 1 and (ENC_MARK in err or (hint is not None and hint[1] == 'encerr' and split_diag(err, hint[0])[1].strip())):
+        # at -O2 the error may surface while optimising, before the header is printed.  `hint` = (stderr text,
+        # ending) predicted by the model: a status-1 run with text beyond the program's own stderr is a diagnosed
+        # error even if the diagnostic is worded differently
+        kind = 'encerr'
     elif not found:
         kind = 'noheader'
     elif p.rc == 0:
@@ -135,7 +157,9 @@ def compare_to_ref(obs, ro, re_, rend, lenient_encerr):
     if obs.kind != want:
         return 'ending: expected %s, observed %s (rc=%s)' % (want, obs.kind, obs.rc)
     if want == 'encerr':
-        err_prog = obs.err.split('[error]')[0] if '[error]' in obs.err else obs.err
+        err_prog, diag = split_diag(obs.err, re_)
+        if not diag.strip():
+            return 'encoding error expected: status 1 without any diagnostic text'
         if lenient_encerr:
             if not ro.startswith(obs.out):
                 return 'stdout before the encoding error is not a prefix of the expected text'
@@ -154,15 +178,15 @@ def compare_to_ref(obs, ro, re_, rend, lenient_encerr):
     return None
 
 
-def compare_runs(base, other, lenient_encerr=True):
+def compare_runs(base, other, lenient_encerr=True, ref_err=''):
     """Compare an optimised/compiled run with the unoptimised run of the same program (both RunObs)."""
     if base.kind in ('wall', 'cpu', 'crash', 'noheader', 'other') or other.kind == 'wall':
         return 'INCONCLUSIVE base=%s other=%s' % (base.kind, other.kind)
     if other.kind != base.kind:
         return 'ending: unoptimised %s (rc=%s), this run %s (rc=%s)' % (base.kind, base.rc, other.kind, other.rc)
     if base.kind == 'encerr':
-        bp = base.err.split('[error]')[0]
-        op = other.err.split('[error]')[0]
+        bp = split_diag(base.err, ref_err)[0]
+        op = split_diag(other.err, ref_err)[0]
         if lenient_encerr:
             if not base.out.startswith(other.out):
                 return 'stdout before the encoding error is not a prefix of the unoptimised text'
